@@ -17,7 +17,8 @@
 (***************************************************************************)
 EXTENDS MeshOps, Json
 
-CONSTANTS NSlots, Depth, Ops, Walk
+CONSTANTS NSlots, Depth, Ops, Walk,
+          BaseSet    \* "std": triangle / point bases; "topo": the topology dimension (quad, line, line strip, line loop)
 
 VARIABLES pool, hist,
           noop      \* the last step left the pool unchanged (no result, or the contract says it fails)
@@ -57,7 +58,28 @@ BaseEmpty == MkMesh("triangle", <<>>, <<>>, <<>>)
 \* produces when b carries no material): exporters have to cope without touching the shared list
 BaseUnder == [BaseTris EXCEPT !.mats = <<[n |-> 1, m |-> 2]>>]
 
-Bases == {BaseQuad, BaseTris, BasePts, BaseEmpty, BaseUnder}
+\* The topology dimension: every topology the library names, each with shared vertices, an unreferenced vertex and
+\* (where primitives can be counted) material ranges.  Exporters, scans and the topology-agnostic operations meet
+\* them (the Ops of that configuration); whatever an entry point does with a topology it has no use for - reject it,
+\* convert it - it must not show in the caller's value.
+BaseQ4 ==
+    MkMesh("quad", <<0, 1, 3, 2, 2, 3, 5, 4>>,
+           <<[ar |-> 1, id |-> 5, data |-> <<<<Q>>, <<2 * Q>>, <<3 * Q>>, <<4 * Q>>, <<5 * Q>>, <<6 * Q>>, <<7 * Q>>>>],
+             [ar |-> 3, id |-> 1, data |-> <<P(0, 0, 0), P(2, 0, 0), P(0, 2, 0), P(2, 2, 0), P(0, 4, 0), P(2, 4, 0), P(7, 7, 7)>>]>>,
+           <<[n |-> 1, m |-> 1], [n |-> 1, m |-> 2]>>)
+BaseLn ==
+    MkMesh("line", <<0, 1, 1, 2>>,
+           <<[ar |-> 3, id |-> 1, data |-> <<P(0, 0, 0), P(1, 0, 0), P(1, 1, 0), P(5, 5, 5)>>]>>, <<>>)
+BaseStrip ==
+    MkMesh("line strip", <<2, 0, 1>>,
+           <<[ar |-> 2, id |-> 4, data |-> <<<<0, 0>>, <<Q, 0>>, <<0, Q>>>>],
+             [ar |-> 3, id |-> 1, data |-> <<P(0, 0, 0), P(1, 0, 0), P(1, 1, 0)>>]>>, <<>>)
+BaseLoop ==
+    MkMesh("line loop", <<0, 1, 2>>,
+           <<[ar |-> 3, id |-> 1, data |-> <<P(0, 0, 0), P(1, 0, 0), P(1, 1, 0)>>]>>, <<>>)
+
+Bases == IF BaseSet = "topo" THEN {BaseQ4, BaseLn, BaseStrip, BaseLoop, BasePts}
+         ELSE {BaseQuad, BaseTris, BasePts, BaseEmpty, BaseUnder}
 
 Live == {s \in Slots : IsMesh(pool[s])}
 Z == [z |-> 0]
@@ -106,7 +128,7 @@ Candidates ==
     \cup Unary("FlatNormals", Z) \cup Unary("SmoothNormals", Z)
     \cup Unary("Laplacian", [id |-> 1, iters |-> 1, lam2 |-> 2]) \cup Unary("Laplacian", [id |-> 1, iters |-> 3, lam2 |-> 1])
     \cup NoRes("Export", [fmt |-> "ply-le"]) \cup NoRes("Export", [fmt |-> "obj"])
-    \cup NoRes("Export", [fmt |-> "glb"]) \cup NoRes("Export", [fmt |-> "stl"])
+    \cup NoRes("Export", [fmt |-> "glb"]) \cup NoRes("Export", [fmt |-> "stl"]) \cup NoRes("Export", [fmt |-> "gltf"])
     \cup NoRes("Scan", Z)
     \* primitives entering the pool (they share package-level tables): welded cubes incl. a mirrored one, quads cube, sphere
     \cup {[op |-> "Prim", dst |-> d, src |-> <<>>, args |-> [gen |-> c[1], p |-> c[2]]] :
